@@ -233,7 +233,12 @@ def run_concurrent(root, tmpl, variant):
                 break
             time.sleep(0.05)
         b = start(info, os.path.join(base, "siteB"))
-        time.sleep(1.2)      # B imports, installs its handlers and blocks on the lock
+        # wait until B (imports done, handlers installed) reaches the acquisition of the run lock
+        for _ in range(600):
+            if os.path.exists(os.path.join(base, "siteB.atlock")) or b.poll() is not None:
+                break
+            time.sleep(0.05)
+        time.sleep(0.4)
         b_alive = b.poll() is None
         if variant == "term":
             b.send_signal(signal.SIGTERM)
